@@ -362,6 +362,25 @@ def gen(rng, tier):
             stream += NL
         run(secrets, random_chunking(r2, stream), "random")
 
+    # ---- long unterminated lines: a secret near every power-of-two size up to 128 KiB (a buffer-size optimisation that
+    #      flushes or cuts an over-long line must not split an occurrence), written in one, two or three chunks
+    r5 = rng.fork("long")
+    sec = [b"hunter2", b"other-secret"]
+    # the model's cost grows faster than quadratically with the line length (0.2 s at 4 KiB, 22 s at 32 KiB, 150 s at
+    # 64 KiB), so the quick tier stops at 16 KiB and the thorough tier adds a few 32 KiB and 64 KiB lines
+    plan = [(4096, [0, 3, 5, 8], [0, 5], True), (16384, [3, 5], [5], False)]
+    if thorough:
+        plan += [(8192, [0, 1, 3, 5, 7, 9], [0, 1, 2, 5], True), (32768, [3, 5], [5], False), (65536, [3, 5], [5], False)]
+    for L, backs, fwds, split in plan:
+        for back in backs:
+            for fwd in fwds:
+                fill = L - 2 - len(sec[0]) + back
+                stream = b"x" * max(0, fill) + sec[0] + b"y" * fwd
+                run(sec, [stream, b"zzz tail"], "long")
+                if split:
+                    cut = max(1, fill + r5.below(len(sec[0]) + 1))
+                    run(sec, [stream[:cut], stream[cut:], b"tail\n"], "long")
+
     # ---- the library alone -----------------------------------------------------------------------------
     r3 = rng.fork("lib")
     for i in range(100000 if thorough else 3000):
